@@ -19,6 +19,9 @@ CHECKS["C19"] = ("metamorphic property-based testing (rapid) + native fuzzing: m
 CHECKS["C11"] = ("property-based testing (rapid): rule-breaking edits at generated sites",
          "(valid program, rule, site) triples: one of eleven rule-breaking edits is applied at a drawn applicable site of a corpus or generated program; the edited program must be rejected by Parse/Lower/Compile with no output, and the reported position must lie in the text (exact first offending token for syntax edits, inside the enclosing declaration for semantic ones). Exploration only.",
          "Trusted: verif/internal/meta structural pass (declaration spans, identifier roles) and that each edit breaks only its rule.", "DESIGN.md §4 C11")
+CHECKS["C18"] = ("property-based testing (rapid): generated programs vs independent DXBC container + LLVM 3.7 bitstream reader",
+         "Corpus and generated vertex/fragment/compute programs (up to thousands of instructions, hundreds of blocks) x shader models 6.0-6.6 x binding maps x hash mode are compiled by dxil.Compile; every returned container is parsed by an independent reader (part table, sizes, retail/bypass hash, HASH part, program header, ISG1/OSG1/PSG1, PSV0, bitstream blocks/abbrevs/alignment, type/value/metadata operand indices and LLVM-reader type agreement) and recompiled to check determinism. Exploration only.",
+         "Trusted: verif/internal/dxbc (hash cross-validated on two real DXC containers shipped in the repository).", "DESIGN.md §4 C18")
 PENDING = {}  # filled below
 
 def main():
